@@ -259,7 +259,7 @@ Proof. now destruct x. Qed.
 Lemma is_sep_lit_eq x : is_sep_lit x = true -> x = SLit [sep].
 Proof. destruct x; try easy. cbn. intros H. apply str_eqb_eq in H. now subst. Qed.
 Lemma is_empty_lit_eq x : is_empty_lit x = true -> x = SLit [].
-Proof. destruct x as [| |s| | | | |]; try easy. now destruct s. Qed.
+Proof. destruct x as [| |s| | | | | |]; try easy. now destruct s. Qed.
 
 Lemma abs_like_segs e x : abs_like x = true -> segs (seval e x) = segs (e_abs e).
 Proof.
@@ -276,7 +276,7 @@ Qed.
 Lemma root_sep_like_sem e y : is_abs (e_root e) = true -> root_sep_like y = true ->
   ends_sep (seval e y) = true /\ segs (seval e y) = segs (e_root e).
 Proof.
-  intros Hr. destruct y as [| | |r s| |r s| |c a b]; try easy; cbn [root_sep_like]; intros H.
+  intros Hr. destruct y as [| | |r s| |r s| |c a b|]; try easy; cbn [root_sep_like]; intros H.
   - apply andb_true_iff in H as [H1 H2]. apply is_sep_lit_eq in H2. subst. cbn [seval].
     split; [apply ends_sep_snoc|]. rewrite segs_snoc_sep. now apply root_like_segs.
   - apply andb_true_iff in H as [H1 H2]. apply is_SRoot_eq in H1. apply is_empty_lit_eq in H2. subst.
@@ -286,7 +286,7 @@ Proof.
     + rewrite app_nil_r. now split.
     + split; [apply ends_sep_snoc | apply segs_snoc_sep].
   - apply andb_true_iff in H as [H12 H3]. apply andb_true_iff in H12 as [H1 H2].
-    apply is_SRoot_eq in H1, H2. subst. destruct b as [| | |r s| | | |]; try easy.
+    apply is_SRoot_eq in H1, H2. subst. destruct b as [| | |r s| | | | |]; try easy.
     apply andb_true_iff in H3 as [H3 H4]. apply is_SRoot_eq in H3. apply is_sep_lit_eq in H4. subst.
     cbn [seval]. destruct (ends_sep (e_root e)) eqn:Ee.
     + now split.
@@ -299,7 +299,7 @@ Proof. intros ->. exists []. now rewrite app_nil_r. Qed.
 Lemma is_common_abs_root_sem e x : is_common_abs_root x = true ->
   seg_prefix (segs (seval e x)) (segs (e_abs e)).
 Proof.
-  destruct x as [| | | | | |a b|]; try easy. cbn [is_common_abs_root]. intros H.
+  destruct x as [| | | | | |a b| |]; try easy. cbn [is_common_abs_root]. intros H.
   cbn [seval]. rewrite segs_commonpath2.
   apply orb_true_iff in H as [H|H]; apply andb_true_iff in H as [H1 H2].
   - apply is_SAbs_eq in H1. subst. cbn [seval]. apply lcp_prefix_l.
@@ -409,6 +409,9 @@ Definition guard_commonpath : gx := GAnd GConstrain (GNot (GEq (SCommon SAbs SRo
 Definition guard_join_empty : gx :=
   GAnd GConstrain (GNot (GStarts (SCat SAbs sepl) (SJoin SRoot (SLit [])))).
 
+(** [self.constrain_path and os.path.commonprefix([abs_path, self.path]) != self.path] — character-wise, unsound *)
+Definition guard_commonprefix : gx := GAnd GConstrain (GNot (GEq (SCommonPrefix SAbs SRoot) SRoot)).
+
 Lemma sound_forms_recognised :
   raise_sound guard_rstrip_sep = true /\ raise_sound guard_eq_or_sep = true /\
   raise_sound guard_commonpath = true /\ raise_sound guard_join_empty = true /\
@@ -421,6 +424,20 @@ Theorem strprefix_guard_refuted :
     is_abs cwd = true /\ resolve guard_strprefix true cwd root_arg path = Ok a /\
     ~ seg_prefix (segs (abspath cwd root_arg)) (segs a).
 Proof.
+  exists (s2l "/w"), (s2l "/t/root"), (s2l "../root_evil/secret.txt"), (s2l "/t/root_evil/secret.txt").
+  split; [reflexivity|]. split; [vm_compute; reflexivity|].
+  intros H. apply seg_prefixb_spec in H. vm_compute in H. discriminate.
+Qed.
+
+(** os.path.commonprefix compares characters, not components: it is not accepted, and it does let a sibling whose
+    name extends the root's name through. *)
+Theorem commonprefix_guard_refuted :
+  raise_sound guard_commonprefix = false /\
+  exists cwd root_arg path a,
+    is_abs cwd = true /\ resolve guard_commonprefix true cwd root_arg path = Ok a /\
+    ~ seg_prefix (segs (abspath cwd root_arg)) (segs a).
+Proof.
+  split; [reflexivity|].
   exists (s2l "/w"), (s2l "/t/root"), (s2l "../root_evil/secret.txt"), (s2l "/t/root_evil/secret.txt").
   split; [reflexivity|]. split; [vm_compute; reflexivity|].
   intros H. apply seg_prefixb_spec in H. vm_compute in H. discriminate.
@@ -535,3 +552,48 @@ Qed.
 (** The carved-out corner is real: unify_path("..") = ".." . *)
 Lemma unify_path_bare_parent : unify_path dd = Some dd.
 Proof. reflexivity. Qed.
+
+(** ---------------------------------------------------------------- what "never steps above" means *)
+(** [stays_below d l]: starting [d] levels below a base directory, following [l] never leaves the base: the walk
+    ends in the base or below it, whatever the base is. *)
+Lemma stays_below_follow l : forall d (pre base : list str),
+  stays_below d l = true -> List.length pre = d ->
+  exists extra, follow (pre ++ base) l = Some (extra ++ base).
+Proof.
+  induction l as [|c r IH]; intros d pre base H Hl; cbn [stays_below follow] in *.
+  - now exists pre.
+  - destruct (is_dotdot c).
+    + destruct d as [|d']; [discriminate|]. destruct pre as [|x pre']; [discriminate|].
+      cbn [app]. apply (IH d' pre' base H). now inversion Hl.
+    + apply (IH (S d) (c :: pre) base H). cbn [List.length]. now rewrite Hl.
+Qed.
+
+(** unify_path, semantically: an accepted pack path followed from ANY base directory ends in that directory or
+    below it and never leaves it on the way -- except the bare '..' corner, which is exactly the parent. *)
+Theorem unify_path_follows_below_base p r : unify_path p = Some r ->
+  (forall base : list str, exists extra, follow base (segs r) = Some (extra ++ base))
+  \/ (segs r = [dd] /\ forall b base, follow (b :: base) (segs r) = Some base).
+Proof.
+  intros H. destruct (unify_path_no_parent p r H) as [Hs|Hc].
+  - left. intros base. exact (stays_below_follow (segs r) 0 [] base Hs eq_refl).
+  - right. split; [exact Hc|]. intros b base. rewrite Hc. reflexivity.
+Qed.
+
+(** '..' can only be the LAST segment of an accepted pack path (stronger than the depth statement). *)
+Theorem unify_path_dotdot_only_last p r : unify_path p = Some r -> dd_only_last (segs r).
+Proof.
+  unfold unify_path. destruct (has_parent_ref (unbackslash (normpath p))) eqn:E; [discriminate|].
+  intros H. inversion H; subst. rewrite segs_lstrip.
+  unfold segs. apply dd_only_last_filter. now apply no_parent_ref_split.
+Qed.
+
+(** The two cases of [unify_path_no_parent] exclude each other, and both occur. *)
+Lemma unify_path_corner_exclusive l : l = [dd] -> stays_below 0 l = false.
+Proof. intros ->. reflexivity. Qed.
+
+Lemma unify_path_cases_occur :
+  unify_path (s2l "a\..") = Some (s2l "a/..") /\
+  stays_below 0 (segs (s2l "a/..")) = true /\ unify_path (s2l "a\..\b") = None /\
+  unify_path (s2l ".\..") = Some (s2l "./..") /\ segs (s2l "./..") = [dd] /\
+  unify_path (s2l "..\..") = None /\ unify_path (s2l "a/../../b") = None.
+Proof. vm_compute. repeat split. Qed.
